@@ -55,11 +55,11 @@ def run(ctx):
 CLAIM = {
     'technique': 'protocol-order typestate over zckdl main(), open-flag check, read-discipline and loop-extent rules '
                  'of the validity scan, validity-flag inventory, arming guard, call-graph reachability (no buffered '
-                 'writer below the callbacks)',
+                 'writer below the callbacks), scan loop-exit and verdict-store rules shared with C09',
     'text': 'static analysis: decides C11-a..c (mechanism) - a restart re-derives validity from checksums before any '
             'request, resets failed chunks, never truncates the target on open; a short or failed read cannot classify '
             'a chunk valid and the scan hashes exactly what it read; chunks become valid only under a digest '
-            'comparison; writes go straight to the descriptor. Crash points are not enumerated.',
+            'comparison; writes go straight to the descriptor. Crash points are not enumerated. C11-d: the restart\'s scan classifies every chunk and stores every verdict.',
     'note': 'trusted: clang 14 front end; O_TRUNC = 01000 (Linux); call graph over-approximates slots',
 }
 
